@@ -122,7 +122,23 @@ def theorem_names(module: str) -> typing.Tuple[typing.List[str], int]:
     return names, examples
 
 
-def audit(module: str) -> dict:
+def audit(module) -> dict:
+    """Audit one Props module or a list of them (merged result)."""
+    if isinstance(module, str):
+        return audit1(module)
+    merged = {"module": list(module), "build_ok": True, "theorems": [], "examples": 0, "bad": [], "axioms": {}, "log": ""}
+    for m in module:
+        r = audit1(m)
+        merged["build_ok"] = merged["build_ok"] and r["build_ok"]
+        merged["theorems"] += r["theorems"]
+        merged["examples"] += r["examples"]
+        merged["bad"] += r["bad"]
+        merged["axioms"].update(r["axioms"])
+        merged["log"] += r["log"]
+    return merged
+
+
+def audit1(module: str) -> dict:
     """Build `module`, scan its sources, and `#print axioms` every property theorem in it."""
     res = {"module": module, "build_ok": False, "theorems": [], "examples": 0, "bad": [], "axioms": {}, "log": ""}
     ok, log = lake_build([module])
